@@ -1,48 +1,46 @@
 use serde_json::{json, Value};
-use vcore::idx;
+use vcore::{idx, Rng};
 #[path = "../shared/paging.rs"]
 mod paging;
 fn main() {
-  let f = std::env::args().nth(1).unwrap();
-  let v: Value = serde_json::from_str(&std::fs::read_to_string(f).unwrap()).unwrap();
-  let case = &v["case"];
   let dir = std::path::PathBuf::from("/tmp/c11probe-idx");
-  let _ = std::fs::remove_dir_all(&dir);
-  let sch = idx::schema(&paging::schema_json()).unwrap();
-  let index = searchlite_core::api::Index::create(&dir, sch, idx::opts(&dir, true)).unwrap();
-  for c in case["corpus"].as_array().unwrap() {
+  let mode = std::env::args().nth(1).unwrap();
+  let mut best: Option<(usize, Vec<Value>, String)> = None;
+  for seed in 0..30000u64 {
+    let mut rng = Rng::new(seed);
+    let n = rng.urange(3, 9);
+    if let Some((bn, _, _)) = best.as_ref() { if n >= *bn { continue; } }
+    let ws = ["rust", "query", "fast"];
+    let mut docs = Vec::new();
+    for i in 0..n {
+      let mut t = |rng: &mut Rng| -> String { let k = rng.urange(1, 4); (0..k).map(|_| *rng.pick(&ws)).collect::<Vec<_>>().join(" ") };
+      if mode == "stale" {
+        docs.push(json!({"_id": format!("d{i}"), "body": t(&mut rng), "title": t(&mut rng), "notes": t(&mut rng)}));
+      } else {
+        docs.push(json!({"_id": format!("d{i}"), "body": t(&mut rng)}));
+      }
+    }
+    let _ = std::fs::remove_dir_all(&dir);
+    let sch = idx::schema(&paging::schema_json()).unwrap();
+    let index = searchlite_core::api::Index::create(&dir, sch, idx::opts(&dir, true)).unwrap();
     let mut w = index.writer().unwrap();
-    for op in c.as_array().unwrap() {
-      if let Some(d) = op.get("add") { w.add_document(&idx::doc(d)).unwrap(); } else { w.delete_document(op["del"].as_str().unwrap()).unwrap(); }
-    }
+    for d in docs.iter() { w.add_document(&idx::doc(d)).unwrap(); }
     w.commit().unwrap();
-  }
-  let reader = index.reader().unwrap();
-  let mut req = case["request"].clone();
-  req["limit"] = json!(100);
-  for exec in ["bm25","wand","bmw"] { req["execution"] = json!(exec); println!("exec {exec}");
-  let mut seen: std::collections::BTreeMap<String, std::collections::BTreeSet<u32>> = Default::default();
-  for _ in 0..200 {
-    let r = idx::search(&reader, req.clone()).unwrap();
-    for h in r.hits.iter() { seen.entry(h.doc_id.clone()).or_default().insert(h.score.to_bits()); }
-  }
-  for (k, v) in seen.iter() { if v.len() > 1 { println!("{k}: {:?}", v.iter().map(|b| f32::from_bits(*b)).collect::<Vec<_>>()); } }
-  let docs: std::collections::BTreeMap<String, Value> = v["case"]["corpus"].as_array().unwrap().iter().flat_map(|c| c.as_array().unwrap().iter()).filter_map(|o| o.get("add")).map(|d| (d["_id"].as_str().unwrap().to_string(), d.clone())).collect();
-  for (k, v) in seen.iter() { if v.len() > 1 { println!("{}", docs[k]); } }
-  }
-  req["execution"] = case["request"]["execution"].clone();
-  let full = idx::search(&reader, req.clone()).unwrap();
-  let fs = paging::hit_sigs(&full);
-  for page in 1..=7usize {
-    let mut broken = 0; let mut errs = std::collections::BTreeSet::new(); let mut differ = 0; let mut variants = std::collections::BTreeSet::new();
-    for _ in 0..100 {
-      let w = paging::walk(&reader, &case["request"], page, 100);
-      if let Some(s) = w.stopped { broken += 1; errs.insert(s); continue; }
+    let reader = index.reader().unwrap();
+    let base = if mode == "stale" { json!({"query": "rust", "execution": "wand", "return_stored": false}) }
+      else { json!({"query": {"type":"bool","should":[{"type":"term","field":"body","value":"rust"},{"type":"term","field":"body","value":"query"}]}, "execution": "bmw", "bmw_block_size": 1, "return_stored": false}) };
+    let mut fr = base.clone(); fr["limit"] = json!(20);
+    let full = paging::hit_sigs(&idx::search(&reader, fr).unwrap());
+    for page in 1..=2usize {
+      let w = paging::walk(&reader, &base, page, 30);
       let got: Vec<paging::HitSig> = w.pages.iter().flat_map(|p| paging::hit_sigs(p)).collect();
-      if got != fs { differ += 1; }
-      variants.insert(got);
+      let hit = if mode == "stale" { w.stopped.is_some() } else { w.stopped.is_none() && got.iter().map(|h| &h.0).collect::<Vec<_>>() != full.iter().map(|h| &h.0).collect::<Vec<_>>() };
+      if hit {
+        best = Some((n, docs.clone(), format!("page={page} stopped={:?}\n full={}\n walk={}", w.stopped, paging::sigs_json(&full), paging::sigs_json(&got))));
+        break;
+      }
     }
-    println!("page={page} broken {broken}/100 {:?} differ={differ} distinct_walk_results={}", errs, variants.len());
   }
+  if let Some((n, docs, s)) = best { println!("n={n}\n{}\n{s}", serde_json::to_string(&docs).unwrap()); } else { println!("none"); }
   let _ = std::fs::remove_dir_all(&dir);
 }
